@@ -737,11 +737,13 @@ class ContextStateTransaction(_TransactionBase):
                 and self._mdib.context_states.handle.get_one(state_container.Handle, allow_none=True) is not None:
             msg = f'ContextState with handle={state_container.Handle} already exists'
             raise ValueError(msg)
-
-        if state_container.descriptor_container is None:
-            descr = self._mdib.descriptions.handle.get_one(state_container.DescriptorHandle)
-            state_container.descriptor_container = descr
-            state_container.DescriptorVersion = state_container.descriptor_container.DescriptorVersion
+        # always refer to the descriptor that is in the mdib now: the state can have been created from an older
+        # (or meanwhile removed) descriptor instance
+        descr = self._mdib.descriptions.handle.get_one(state_container.DescriptorHandle)
+        if state_container.Handle is None:
+            state_container.Handle = uuid.uuid4().hex  # a context state without handle cannot be reported
+        state_container.descriptor_container = descr
+        state_container.DescriptorVersion = descr.DescriptorVersion
 
         if adjust_state_version:
             self._mdib.context_states.set_version(state_container)
